@@ -1,21 +1,33 @@
 //! C01 — autoescaping: data never reaches an autoescaped output unescaped.
 //!
-//! A *routing generator* sends a context value / string literal / operator result to an output
-//! through chains of routing constructs (set, loops, captures, filter sections, includes, blocks,
-//! inheritance + super(), component argument / body / result, index / slice, pass-through
-//! filters, concatenation, string filters), under randomised autoescape settings (suffix lists,
-//! template names, `render_str` flag, `one_off`).  Every case is
+//! A *routing generator* sends a context value (string, bytes, number, array, map …) / string literal /
+//! operator result / `super()` to an output through chains of routing constructs (set, loops, captures,
+//! filter sections, includes, blocks, inheritance + super(), component argument / body / result,
+//! index / slice, pass-through filters, concatenation, string filters), under randomised autoescape
+//! settings (suffix lists via `autoescape_on` before or after adding templates, template names that
+//! end with / only contain / lack a suffix, `render_str` flag, `one_off`, `render_block`, a configured
+//! escape function).  Every case is
 //!   * rendered by the real engine,
 //!   * sent, as the SafeFlow program the chain denotes, to the Lean model (`drv_c01`)  — correspondence,
 //!   * judged by direct oracles that do not look at the model:
 //!       O1  all participating templates autoescaped and no `safe`  ⇒ the output contains none of
-//!           `< > " '` (literal template text is generated free of them; data is made of them);
-//!       O2  a value marked `| safe` is written verbatim (value-preserving chains);
+//!           `< > " '` (literal template text is generated free of them; data is made of them); with
+//!           the configured escaper `(lt)(gt)(amp)(q)(a)` not even `&`;
+//!       O2  a value marked `| safe` (or made by a filter / function registered `is_safe`) is written
+//!           verbatim (value-preserving chains);
 //!       O3  with autoescape off everywhere every value is written verbatim;
-//!       O4  a captured / component / super() text printed as is equals the same body rendered
-//!           inline (no double escaping);
+//!       O4  a captured / component / super() / included text printed as is equals the same body
+//!           rendered inline (no double escaping), and the inline body is escaped exactly once;
 //!       O5  with a configured escape function every data byte goes through it — known finding
-//!           F10 (bool / number bypass it) is recognised by shape, anything else is reported.
+//!           F10 (bool / number bypass it) is recognised by shape, anything else is reported;
+//!       O6  the autoescape flag of `render_component` decides for the component, the templates it
+//!           includes and the components those call, whatever their names say.
+//! Engine-only streams: W (every builtin filter / test / function / operator / statement on the
+//! hostile context under O1), X (the escaper itself over every short string of special, neighbouring
+//! and multi-byte characters: called directly, through both sinks, a capture, a filter and a loop,
+//! against the five-replacement reference and the Lean `escapeHtml`), and the scalar-alphabet
+//! assumption behind `escape_id_on_scalars` (text of random floats / integers).
+//! Exhaustive: every chain of ≤ 3 (quick) / ≤ 4 (thorough) constructs over 41 construct variants.
 use serde::{Deserialize, Serialize};
 use std::collections::BTreeMap;
 use tera::{Context, Tera, Value};
@@ -53,7 +65,7 @@ const HOSTILE: &[&str] = &[
 ];
 
 /// literal template text: free of `< > " '` (and of `{`, `[[`, `]]`)
-const LITS: &[&str] = &["L:", " & ", "·日·", "|x|", "a=b;", "\n", "¿ ", "%)(", "T-"];
+const LITS: &[&str] = &["L:", " + ", "·日·", "|x|", "a=b;", "\n", "¿ ", "%)(", "T-"];
 
 /// string literals used inside expressions (these are data)
 const EXPR_LITS: &[&str] = &["<i>", "it's", "q\"q", "&<>\"'", "日'本", "z"];
@@ -113,6 +125,9 @@ fn make_context(rng: &mut Rng, idx: usize) -> BTreeMap<String, Value> {
     let fs = [1.5f64, -0.0, 1e300, f64::NAN, f64::NEG_INFINITY, 1e-7, 3.0];
     m.insert("f".to_string(), Value::from(if idx == 0 { f64::NAN } else { fs[rng.below(fs.len())] }));
     m.insert("nn".to_string(), Value::none());
+    // (no cased non-ASCII letters: `upper` / `lower` stay inside what the model implements)
+    let bys: [&[u8]; 5] = [b"<>&\"'", b"x>y", b"\xff<\xfe'", "日>本".as_bytes(), "日\"本'".as_bytes()];
+    m.insert("by".to_string(), Value::bytes(bys[(idx + rng.below(2)) % bys.len()].to_vec()));
     m
 }
 
@@ -165,6 +180,10 @@ enum Src {
     Map,
     /// `super()` of the parent block (inheritance mode only)
     Super,
+    /// a bytes value
+    Bytes,
+    /// harmless text explicitly marked safe (`"zz" | safe`): what follows it must still be escaped
+    SafeLit,
 }
 
 #[derive(Clone, Debug, Serialize, Deserialize, PartialEq)]
@@ -294,6 +313,8 @@ enum Api {
     Render,
     RenderStr(bool),
     OneOff(bool),
+    /// `Tera::render_block(child, "main", ..)` (inheritance mode only): the block's text alone
+    RenderBlock,
 }
 
 #[derive(Clone, Debug, Serialize, Deserialize, PartialEq)]
@@ -331,6 +352,7 @@ enum Kind {
     Map,
     Scalar,
     NoneK,
+    Bytes,
 }
 
 struct Tpl {
@@ -362,10 +384,16 @@ struct Builder<'a> {
     n: usize,
     in_loop: bool,
     uses_safe: bool,
+    /// harmless literal text was marked safe (`Src::SafeLit`): the direct oracles still apply, the
+    /// model program is not `clean`
+    safe_lit: bool,
     /// every construct so far hands the source value on unchanged
     preserving: bool,
     /// the run-time kind of the current value is known (no index / lookup that may miss)
     certain: bool,
+    /// the current array / map was built around a value that is not a string: its elements are not
+    /// taken out again (the generator tracks element kinds only for strings)
+    wrapped_non_str: bool,
     parent_block: Option<(String, Vec<String>)>,
 }
 
@@ -394,8 +422,10 @@ impl<'a> Builder<'a> {
             n: 0,
             in_loop: false,
             uses_safe: false,
+            safe_lit: false,
             preserving: true,
             certain: true,
+            wrapped_non_str: false,
             parent_block: None,
         }
     }
@@ -505,6 +535,15 @@ impl<'a> Builder<'a> {
             Src::NoneV => self.set_cur_var("nn", Kind::NoneK),
             Src::Arr => self.set_cur_var("arr", Kind::Arr),
             Src::Map => self.set_cur_var("m", Kind::Map),
+            Src::Bytes => self.set_cur_var("by", Kind::Bytes),
+            Src::SafeLit => {
+                self.expr = "\"zz\" | safe".into();
+                self.eprog = vec![format!("sl:{}", hex(b"zz")), "safe".into()];
+                self.kind = Kind::Str;
+                self.level = 1;
+                self.preserving = false;
+                self.safe_lit = true;
+            }
             Src::Super => {
                 let Some((_, pprog)) = self.parent_block.clone() else { return false };
                 self.expr = "super()".into();
@@ -540,6 +579,9 @@ impl<'a> Builder<'a> {
 
     fn apply(&mut self, c: &C) -> bool {
         use Kind::*;
+        if !matches!(self.kind, Arr | Map) {
+            self.wrapped_non_str = false;
+        }
         let str_like = self.kind == Str;
         match c {
             C::Set => self.do_set(),
@@ -557,7 +599,7 @@ impl<'a> Builder<'a> {
                 self.in_loop = true;
             }
             C::LoopOver | C::LoopChars => {
-                if (*c == C::LoopOver && self.kind != Arr) || (*c == C::LoopChars && !str_like) {
+                if (*c == C::LoopOver && (self.kind != Arr || self.wrapped_non_str)) || (*c == C::LoopChars && !str_like) {
                     return false;
                 }
                 self.ensure_level(1);
@@ -622,7 +664,7 @@ impl<'a> Builder<'a> {
                 self.in_loop = false;
             }
             C::Block => {
-                if self.in_loop || !self.tpls[self.cur].blocks_ok || (self.cur == 0 && self.st.api != Api::Render) {
+                if self.in_loop || !self.tpls[self.cur].blocks_ok || (self.cur == 0 && self.st.api != Api::Render && self.st.api != Api::RenderBlock) {
                     return false;
                 }
                 let b = self.fresh("blk");
@@ -646,6 +688,7 @@ impl<'a> Builder<'a> {
                     Str => "string",
                     Arr => "array",
                     Map => "map",
+                    Bytes => "bytes",
                     _ => "",
                 };
                 let params = if variant == 1 && !tyname.is_empty() { format!("{pname}: {tyname}") } else { pname.clone() };
@@ -704,7 +747,7 @@ impl<'a> Builder<'a> {
                 self.preserving = false;
             }
             C::Index(i) => {
-                if !(str_like || self.kind == Arr) {
+                if !(str_like || self.kind == Arr) || (self.kind == Arr && self.wrapped_non_str) {
                     return false;
                 }
                 self.ensure_level(2);
@@ -727,7 +770,7 @@ impl<'a> Builder<'a> {
                 self.preserving = false;
             }
             C::Attr => {
-                if self.kind != Map {
+                if self.kind != Map || self.wrapped_non_str {
                     return false;
                 }
                 self.ensure_level(2);
@@ -748,6 +791,9 @@ impl<'a> Builder<'a> {
                     _ => ("nth(n=0)", "nth:0"),
                 };
                 if self.kind == Arr {
+                    if self.wrapped_non_str {
+                        return false;
+                    }
                     self.filter(t, tok.into());
                     self.kind = Str;
                     self.preserving = false;
@@ -766,6 +812,9 @@ impl<'a> Builder<'a> {
             }
             C::Get => {
                 if self.kind == Map {
+                    if self.wrapped_non_str {
+                        return false;
+                    }
                     self.filter("get(key=\"k\")", format!("get:{}", hex(b"k")));
                     self.kind = Str;
                     self.preserving = false;
@@ -785,6 +834,7 @@ impl<'a> Builder<'a> {
                 let d = EXPR_LITS[*l % EXPR_LITS.len()];
                 if self.kind == Arr {
                     self.filter(&format!("join(sep={})", quote(d)), format!("join:{}", hex(d.as_bytes())));
+                    self.wrapped_non_str = false;
                 } else {
                     if self.expr.contains('[') {
                         self.do_set();
@@ -879,6 +929,9 @@ impl<'a> Builder<'a> {
                 self.uses_safe = true;
             }
             C::WrapArr => {
+                if self.kind != Str {
+                    self.wrapped_non_str = true;
+                }
                 if self.expr.contains('[') {
                     self.do_set();
                 }
@@ -891,6 +944,9 @@ impl<'a> Builder<'a> {
                 self.preserving = false;
             }
             C::WrapMap => {
+                if self.kind != Str {
+                    self.wrapped_non_str = true;
+                }
                 if self.expr.contains('}') {
                     self.do_set();
                 }
@@ -914,6 +970,7 @@ struct Built {
     all_on: bool,
     all_off: bool,
     uses_safe: bool,
+    safe_lit: bool,
     preserving: bool,
     final_is_path: bool,
     n_templates: usize,
@@ -927,8 +984,11 @@ fn build(spec: &CaseSpec) -> Option<Built> {
     let mut b = Builder::new(st);
     b.new_tpl("root", true);
     let mut base_idx = None;
+    if st.api == Api::RenderBlock && !st.inherit {
+        return None;
+    }
     if st.inherit {
-        if st.api != Api::Render {
+        if st.api != Api::Render && st.api != Api::RenderBlock {
             return None;
         }
         let bi = b.new_tpl("base", true);
@@ -940,13 +1000,18 @@ fn build(spec: &CaseSpec) -> Option<Built> {
         b.parent_block = Some(("main".into(), pprog));
         b.cur = 0;
         b.text(&format!("{{% extends {} %}}{{% block main %}}", quote(&base_name)));
-        b.prog.push(format!("txt:{}", hex(b"PRE|")));
-        b.prog.push("block".into());
-        b.scopes.push(Scope {
-            close_text: "{% endblock main %}".into(),
-            close_prog: vec![".".into(), format!("txt:{}", hex(b"|POST"))],
-            back_to: None,
-        });
+        if st.api == Api::RenderBlock {
+            // only the selected block's chunk contributes
+            b.scopes.push(Scope { close_text: "{% endblock main %}".into(), close_prog: vec![], back_to: None });
+        } else {
+            b.prog.push(format!("txt:{}", hex(b"PRE|")));
+            b.prog.push("block".into());
+            b.scopes.push(Scope {
+                close_text: "{% endblock main %}".into(),
+                close_prog: vec![".".into(), format!("txt:{}", hex(b"|POST"))],
+                back_to: None,
+            });
+        }
     }
     let _ = base_idx;
     if !b.source(&spec.src) {
@@ -979,7 +1044,7 @@ fn build(spec: &CaseSpec) -> Option<Built> {
     }
     b.prog.push(".".into());
     let root_ae = match st.api {
-        Api::Render => b.tpls[0].ae,
+        Api::Render | Api::RenderBlock => b.tpls[0].ae,
         Api::RenderStr(f) | Api::OneOff(f) => f,
     };
     if matches!(st.api, Api::OneOff(_)) && b.tpls.len() > 1 {
@@ -994,6 +1059,7 @@ fn build(spec: &CaseSpec) -> Option<Built> {
         all_on: root_ae && others_on,
         all_off: !root_ae && others_off,
         uses_safe: b.uses_safe,
+        safe_lit: b.safe_lit,
         preserving: b.preserving,
         final_is_path,
         tpls: b.tpls.into_iter().map(|t| (t.name, t.src, t.ae)).collect(),
@@ -1047,6 +1113,7 @@ fn run_engine(spec: &CaseSpec, built: &Built, ctx: &Context) -> String {
         }
         match st.api {
             Api::Render => tera.render(&built.tpls[0].0, ctx).map_err(|e| format!("{e:?}")),
+            Api::RenderBlock => tera.render_block(&built.tpls[0].0, "main", ctx).map_err(|e| format!("{e:?}")),
             Api::RenderStr(f) => tera.render_str(&built.tpls[0].1, ctx, f).map_err(|e| format!("{e:?}")),
             Api::OneOff(_) => unreachable!(),
         }
@@ -1064,7 +1131,7 @@ fn run_engine(spec: &CaseSpec, built: &Built, ctx: &Context) -> String {
 }
 
 fn model_request(spec: &CaseSpec, built: &Built, ctxm: &BTreeMap<String, Value>) -> String {
-    let esc = if spec.settings.custom_escaper { "map:60:286c7429" } else { "html" };
+    let esc = if spec.settings.custom_escaper { "paren" } else { "html" };
     let mut s = format!("render {esc} - {} C{}", if built.root_ae { 1 } else { 0 }, ctxm.len());
     for (k, v) in ctxm {
         s.push(' ');
@@ -1133,7 +1200,9 @@ fn eval(spec: &CaseSpec, built: &Built) -> Outcome {
         // O1
         if built.all_on && !built.uses_safe {
             checks += 1;
-            let bad = if spec.settings.custom_escaper { out.chars().find(|c| *c == '<') } else { has_special(&out) };
+            // with the configured escaper not even `&` may appear (literal text has none): an `&`
+            // betrays a sink that used the default escaper
+            let bad = if spec.settings.custom_escaper { out.chars().find(|c| matches!(c, '<' | '>' | '"' | '\'' | '&')) } else { has_special(&out) };
             if let Some(c) = bad {
                 fails.push(("O1-no-special-chars".to_string(), format!("autoescape on everywhere, no `safe`, yet the output contains `{c}`: {out:?}")));
             }
@@ -1194,6 +1263,7 @@ fn random_settings(rng: &mut Rng, mode: u8) -> Settings {
         _ => Api::Render,
     };
     let inherit = api == Api::Render && rng.chance(1, 4);
+    let api = if inherit && rng.chance(1, 3) { Api::RenderBlock } else { api };
     let custom_escaper = !matches!(api, Api::OneOff(_)) && rng.chance(1, 8);
     Settings { suffixes, suffix_after: rng.chance(1, 2), ae_bits, api, inherit, final_safe: false, custom_escaper }
 }
@@ -1217,7 +1287,11 @@ fn random_src(rng: &mut Rng, inherit: bool) -> Src {
             _ => Src::NoneV,
         },
         13 => Src::Path("m[\"q\\\"<\"]".into(), vec!["ld:m".into(), format!("at:{}", hex("q\"<".as_bytes()))]),
-        14 => Src::Var("s1".into()),
+        14 => match rng.below(3) {
+            0 => Src::Bytes,
+            1 => Src::SafeLit,
+            _ => Src::Var("s1".into()),
+        },
         _ => Src::Super,
     }
 }
@@ -1338,6 +1412,96 @@ fn no_double_escape(data: &str, lit: &str, ae: bool) -> Result<u64, String> {
         }
     }
     Ok(n)
+}
+
+// ------------------------------------------------------------------ stream X: the escaper itself, exhaustively
+
+fn reference_escape(s: &str) -> String {
+    let mut o = String::with_capacity(s.len() * 2);
+    for c in s.chars() {
+        match c {
+            '&' => o.push_str("&amp;"),
+            '<' => o.push_str("&lt;"),
+            '>' => o.push_str("&gt;"),
+            '"' => o.push_str("&quot;"),
+            '\'' => o.push_str("&#39;"),
+            c => o.push(c),
+        }
+    }
+    o
+}
+
+/// every string of up to `max_len` symbols over an alphabet of the five special characters, ASCII
+/// neighbours of theirs and multi-byte characters (so also strings such as `x>y` or `é>ü` whose bytes
+/// are all above `<`), plus every single ASCII character: `escape_html` called directly, through both
+/// sinks and through a capture, against the five-replacement reference and against the Lean model
+fn escaper_stream(exe: &std::path::Path, max_len: usize, report: &mut Report) -> Option<(String, serde_json::Value)> {
+    let alphabet = ["<", ">", "&", "\"", "'", "x", "=", ";", "#", "é", "ü", "日", "😀", "?", "/"];
+    let mut strings: Vec<String> = vec![String::new()];
+    let mut frontier: Vec<String> = vec![String::new()];
+    for _ in 0..max_len {
+        let mut next = Vec::new();
+        for s in &frontier {
+            for a in alphabet {
+                next.push(format!("{s}{a}"));
+            }
+        }
+        strings.extend(next.iter().cloned());
+        frontier = next;
+    }
+    for b in 0u8..128 {
+        strings.push((b as char).to_string());
+        strings.push(format!("é{}ü", b as char));
+    }
+    let mut tera = Tera::default();
+    tera.add_raw_templates(vec![
+        ("p.html", "{{ v }}"),
+        ("t.html", "{{ v ~ \"\" }}"),
+        ("c.html", "{% set c %}{{ v }}{% endset %}{{ c }}"),
+        ("a.html", "{{ [v] | first }}|{% for x in [v] %}{{ x }}{% endfor %}"),
+    ])
+    .unwrap();
+    let mut first: Option<(String, serde_json::Value)> = None;
+    let mut reqs = Vec::with_capacity(strings.len());
+    for s in &strings {
+        let want = reference_escape(s);
+        let mut buf = Vec::new();
+        let _ = tera::escape_html(s, &mut buf);
+        report.evaluations += 1;
+        report.oracle_checks += 5;
+        let mut ctx = Context::new();
+        ctx.insert("v", s);
+        let got = [
+            ("escape_html", String::from_utf8_lossy(&buf).to_string(), want.clone()),
+            ("{{ v }}", tera.render("p.html", &ctx).unwrap_or_else(|e| format!("error {e:?}")), want.clone()),
+            ("{{ v ~ \"\" }}", tera.render("t.html", &ctx).unwrap_or_else(|e| format!("error {e:?}")), want.clone()),
+            ("capture", tera.render("c.html", &ctx).unwrap_or_else(|e| format!("error {e:?}")), want.clone()),
+            ("first / loop", tera.render("a.html", &ctx).unwrap_or_else(|e| format!("error {e:?}")), format!("{want}|{want}")),
+        ];
+        for (how, g, w) in got {
+            if g != w {
+                report.oracle_failures += 1;
+                if first.is_none() {
+                    first = Some((format!("escaper: {how} of {s:?} gives {g:?}, must be {w:?}"), serde_json::json!({"escaper_string": s})));
+                }
+            }
+        }
+        reqs.push(format!("esc {}", hex(s.as_bytes())));
+    }
+    report.count_n("escaper.strings", strings.len() as u64);
+    if let Ok(ms) = driver::run_batch_parallel(exe, &reqs, 16) {
+        for (k, m) in ms.iter().enumerate() {
+            report.model_comparisons += 1;
+            let want = format!("ok {} 11", hex(reference_escape(&strings[k]).as_bytes()));
+            if *m != want {
+                report.model_disagreements += 1;
+                if first.is_none() && report.violations.iter().all(|v| v.kind != "model-mismatch") {
+                    report.violation("model-mismatch", format!("escape_html model: `{m}` for {:?}, the engine / reference give `{want}`", strings[k]), serde_json::json!({"detail": {"stage": "correspondence:escape_html"}, "escaper_string": strings[k]}));
+                }
+            }
+        }
+    }
+    first
 }
 
 // ------------------------------------------------------------------ stream W: every builtin, engine only
@@ -1507,8 +1671,8 @@ fn override_case(data: &str, flag: bool, inc_html: bool, def_html: bool) -> (Str
     let defs = if def_html { "defs.html" } else { "defs.txt" };
     let mut tera = Tera::default();
     let r = tera.add_raw_templates(vec![
-        (defs.to_string(), format!("{{% component outer(a) %}}1:{{{{ a }}}}|{{% include \"{inc}\" %}}|{{{{ <inner a={{a}}/> }}}}{{% endcomponent outer %}}{{% component inner(a) %}}3:{{{{ a }}}}{{% endcomponent inner %}}")),
-        (inc.to_string(), "2:{{ a }}".to_string()),
+        (defs.to_string(), format!("{{% component outer(a) %}}1:{{{{ a }}}}|{{% include \"{inc}\" %}}|{{{{ <inner a={{a}}/> }}}}{{% endcomponent outer %}}{{% component inner(a) %}}3:{{{{ a }}}}{{% endcomponent inner %}}{{% component deep(a) %}}5:{{{{ a }}}}{{{{ body }}}}{{% endcomponent deep %}}")),
+        (inc.to_string(), "2:{{ a }}{% <deep a={a}> %}4:{{ a ~ \"\" }}{% </deep> %}".to_string()),
     ]);
     if let Err(e) = r {
         return (format!("adderr {e:?}"), String::new(), String::new());
@@ -1522,7 +1686,7 @@ fn override_case(data: &str, flag: bool, inc_html: bool, def_html: bool) -> (Str
     };
     let a = hex(data.as_bytes());
     let req = format!(
-        "render html {} {} C1 a s:{a} txt:313a ld:a w txt:7c incl:{} txt:323a ld:a w . txt:7c comp:a:0 ld:a . txt:333a ld:a w . w .",
+        "render html {} {} C1 a s:{a} txt:313a ld:a w txt:7c incl:{} txt:323a ld:a w comp:a:1 txt:343a ld:a sl: cat w . ld:a . txt:353a ld:a w ld:body w . w . txt:7c comp:a:0 ld:a . txt:333a ld:a w . w .",
         if flag { 1 } else { 0 },
         if def_html { 1 } else { 0 },
         if inc_html { 1 } else { 0 }
@@ -1532,15 +1696,23 @@ fn override_case(data: &str, flag: bool, inc_html: bool, def_html: bool) -> (Str
     } else {
         data.to_string()
     };
-    (imp, req, format!("ok {}", hex(format!("1:{e}|2:{e}|3:{e}").as_bytes())))
+    (imp, req, format!("ok {}", hex(format!("1:{e}|2:{e}5:{e}4:{e}|3:{e}").as_bytes())))
 }
 
 // ------------------------------------------------------------------ O5: configured escaper (F10)
 
-/// configured escaper used by the routing stream: `<` ↦ `(lt)`
+/// configured escaper used by the routing stream: the five special characters become
+/// `(lt) (gt) (amp) (q) (a)` — so a sink that used the default escaper instead shows up as an `&`
 fn lt_escaper(input: &str, out: &mut dyn std::io::Write) -> std::io::Result<()> {
     for b in input.bytes() {
-        if b == b'<' { out.write_all(b"(lt)")? } else { out.write_all(&[b])? }
+        match b {
+            b'<' => out.write_all(b"(lt)")?,
+            b'>' => out.write_all(b"(gt)")?,
+            b'&' => out.write_all(b"(amp)")?,
+            b'"' => out.write_all(b"(q)")?,
+            b'\'' => out.write_all(b"(a)")?,
+            _ => out.write_all(&[b])?,
+        }
     }
     Ok(())
 }
@@ -1665,6 +1837,14 @@ fn main() {
             }
             return;
         }
+        if let Some(sv) = j.get("escaper_string").and_then(|v| v.as_str()) {
+            let mut buf = Vec::new();
+            let _ = tera::escape_html(sv, &mut buf);
+            let mut ctx = Context::new();
+            ctx.insert("v", sv);
+            println!("string: {sv:?}\nescape_html: {:?}\n{{{{ v }}}} autoescaped: {:?}\nreference: {:?}\nmodel: {:?}", String::from_utf8_lossy(&buf), Tera::one_off("{{ v }}", &ctx, true), reference_escape(sv), driver::run_batch(&exe, &[format!("esc {}", hex(sv.as_bytes()))]));
+            return;
+        }
         if let Some(d) = j.get("wide") {
             let mut rng = Rng::new(env.seed);
             let contexts: Vec<BTreeMap<String, Value>> = (0..env.budget(3, 6)).map(|i| make_context(&mut rng, i)).collect();
@@ -1755,11 +1935,12 @@ fn main() {
         specs.push(CaseSpec { src: Src::Var("s1".into()), chain: ch.clone(), settings: Settings { custom_escaper: true, ..on.clone() }, ctx: ctx.clone() });
         if ch.len() <= 1 || !env.quick() {
             specs.push(CaseSpec { src: Src::Super, chain: ch.clone(), settings: Settings { inherit: true, ..on.clone() }, ctx: ctx.clone() });
-            specs.push(CaseSpec { src: Src::Var("s2".into()), chain: ch.clone(), settings: Settings { inherit: true, ..on.clone() }, ctx });
+            specs.push(CaseSpec { src: Src::Var("s2".into()), chain: ch.clone(), settings: Settings { inherit: true, ..on.clone() }, ctx: ctx.clone() });
+            specs.push(CaseSpec { src: Src::Super, chain: ch.clone(), settings: Settings { inherit: true, api: Api::RenderBlock, ..on.clone() }, ctx });
         }
     }
-    for src in [Src::StrLit(3), Src::Concat, Src::Num, Src::Bool, Src::Float, Src::NoneV, Src::Arr, Src::Map] {
-        for ch in chains.iter().filter(|c| c.len() <= 1) {
+    for src in [Src::StrLit(3), Src::Concat, Src::Num, Src::Bool, Src::Float, Src::NoneV, Src::Arr, Src::Map, Src::Bytes, Src::SafeLit] {
+        for ch in chains.iter().filter(|c| c.len() <= if matches!(src, Src::Bytes | Src::SafeLit) { 2 } else { 1 }) {
             for s in [&on, &off] {
                 specs.push(CaseSpec { src: src.clone(), chain: ch.clone(), settings: s.clone(), ctx: ctx_wires[0].clone() });
             }
@@ -1818,7 +1999,7 @@ fn main() {
             report.count(&format!("templates.{}", built.n_templates.min(6)));
             report.count(&format!("chain-length.{}", spec.chain.len().min(7)));
             report.count(&format!("mode.{}", if built.all_on { "all-on" } else if built.all_off { "all-off" } else { "mixed" }));
-            report.count(&format!("api.{}", match spec.settings.api { Api::Render => "render", Api::RenderStr(_) => "render_str", Api::OneOff(_) => "one_off" }));
+            report.count(&format!("api.{}", match spec.settings.api { Api::Render => "render", Api::RenderStr(_) => "render_str", Api::OneOff(_) => "one_off", Api::RenderBlock => "render_block" }));
             if spec.settings.custom_escaper {
                 report.count("escaper.configured");
             }
@@ -1862,7 +2043,7 @@ fn main() {
                     }
                 }
                 // the model's own tags: with everything on and no `safe` no byte may be tagged raw
-                if built.all_on && !built.uses_safe {
+                if built.all_on && !built.uses_safe && !built.safe_lit {
                     if let Some(tags) = m.strip_prefix("ok ").and_then(|r| r.split(' ').nth(1)) {
                         if tags.contains('r') {
                             model_raw_when_clean += 1;
@@ -1993,6 +2174,11 @@ fn main() {
     }
     if let Some((e, r)) = o4_fail {
         report.violation("property", format!("O4 no-double-escape: {e}"), r);
+    }
+
+    // stream X: the escaper itself
+    if let Some((msg, r)) = escaper_stream(&exe, env.budget(3, 4), &mut report) {
+        report.violation("property", msg, r);
     }
 
     // stream W: every builtin filter / test / function / operator on hostile data (engine only)
